@@ -720,6 +720,33 @@ class ShapeLifter(Lifter):
                 ax = v.axes[0]
         if ax is not None and eq(ax.size, 0):
             return None             # statically empty iterable
+        # positional pairing: inside `for i, a in enumerate(A)` a subscript
+        # `B[i]` reads the entry of B at the position of a; the two lists
+        # must then be laid out alike
+        if ax is not None and isinstance(it, ast.Call) and U(
+                it.func) == 'enumerate' and isinstance(
+                s.target, ast.Tuple) and len(s.target.elts) == 2 \
+                and isinstance(s.target.elts[0], ast.Name):
+            ivar = s.target.elts[0].id
+            seen_ = set()
+            for x in ast.walk(ast.Module(body=s.body, type_ignores=[])):
+                if isinstance(x, ast.Subscript) and isinstance(
+                        x.slice, ast.Name) and x.slice.id == ivar \
+                        and U(x.value) not in seen_:
+                    seen_.add(U(x.value))
+                    b = self.ev(x.value, env, fn, depth, owner)
+                    if isinstance(b, Arr) and b.ndim == 1 and not \
+                            b.axes[0].same(ax) and all(
+                                known_label(l) or '+' in str(l)
+                                for l, s_ in b.axes[0].nest + ax.nest):
+                        self.note('layout', x,
+                                  '`%s` is read at the position of the '
+                                  'elements of `%s`, but the two are laid '
+                                  'out differently: (%s) vs (%s) — entries '
+                                  'are paired with the wrong partner' % (
+                                      U(x)[:40], U(it.args[0])[:40],
+                                      nest_str(b.axes[0].nest),
+                                      nest_str(ax.nest)))
         # loop variables: scalars / elements
         for x in ast.walk(s.target):
             if isinstance(x, ast.Name):
